@@ -8,6 +8,11 @@ ids = [p["id"] for p in props]
 LANE_TECH = 'TLA+ (DQState.tla + Lane.tla, one action per atomic access) model-checked with TLC; bound to the code by (1) exhaustive function-level conformance of the real inline dq_state functions against the DQState operators, (2) word-level trace validation of every recorded dq_state access of hooked real executions, (3) the property evaluated on the recorded API order'
 LANE_NOTE = "Bounds: TLC explores 2 clients x 2 pool workers with 3-4 items per configuration (thorough: 4-item programs, ~1e6 states each); the root queue is a fair bag; real executions are seeded samples of schedules (perturbation injected inside the library's atomicity windows), not all of them; function-level conformance is exhaustive over the abstract dq_state domain for widths 1-3."
 CHECKS = {
+ "C18": dict(technique="TLA+ specs Attr.tla / AttrGlobal.tla / Frames.tla (implementation-shaped transcriptions compared by TLC with separately stated reference meanings) model-checked with TLC; bound to the code by spec-generated test vectors replayed on the real functions: the complete constructor transition relation and creation reports for every attribute-table entry, every identifier/flag of dispatch_get_global_queue, and one case per hierarchy shape x key placement x submission path with dispatch_get_specific compared and dispatch_assert_queue(_not) judged in children forked inside the running item",
+   text="TLC checks the attribute index<->fields bijection, last-writer-wins / order independence over the whole constructor lattice and faithful reporting of label, clamped QoS class, relative priority, width and inactivity for every attribute; the documented identifier->class->queue mapping over -32768..64 plus wide identifiers x 8 flag values; nearest-value lookup and exact assert acceptance on all submission paths for depth <= 3 hierarchies with nested submission; 6 (quick) / 10 (thorough) spec mutants refuted; the pinned tree's two global-queue defects (repaired by fix: commits) are kept as switchable deviations that TLC shows violating.",
+   note="The real side is exhaustive for the attribute table (4032 entries in this build, radices read from the build) and for the global-queue domain, and seeded-sampled for Frames in the quick tier. Fast/slow path steering is best effort; expectations do not depend on the path (a TLC invariant). Main queue, workloops, pthread root queues and dispatch_assert_queue_barrier are not covered. A hang is reported as BROKEN, not VIOLATION, because C18 states no progress property.",
+   design_ref="7/C18"),
+
  "C09": dict(technique="TLA+ spec (Once.tla) model-checked with TLC (safety + liveness under fairness) + trace validation of hooked real executions of dispatch_once/dispatch_once_f against the same actions + API oracles",
    text="TLC explores every interleaving of the gate's enter/wait/broadcast steps (one action per atomic on dgo_once and per futex call, inline fast path included) for 3-5 racing threads and checks: initialiser at most once and exactly once before any return, DONE only after completion, late calls immediate, no lost sleeper, every call returns and every sleeper is released under fairness; 6 spec mutants must be refuted; every recorded execution of the real library (hooked atomics + futex probes + API events, 3-5 threads, perturbation and bounded steering) must be a behaviour of that spec with all invariants evaluated in every state.",
    note="Bounds are 3 threads x 2 calls for liveness (4 x 1 thorough) and 4 x 1 for safety (4 x 2 and 5 x 1 thorough). Futex semantics are assumed (atomic compare+enqueue, wake-all, spurious returns). Real executions are samples of schedules. TLA+ is SC and the machine is TSO: memory orders are compared as tokens only. A trace rejection is reported as a violation, so a wholesale but benign rewrite of the gate would need the spec updated.",
